@@ -57,3 +57,12 @@ def image_builder(ctx, P):
     _ensure(ctx, P + "/builder-slots", lambda n: c16.rule_slot_siblings(ctx, R=n))
     _ensure(ctx, P + "/builder-write-window", lambda n: c16.rule_write_at_window(ctx, R=n))
     _ensure(ctx, P + "/builder-position-owner", lambda n: c16.rule_position_owner(ctx, R=n))
+
+
+def stack_lookup(ctx, P):
+    """the stack of a thread is found: a mapping is accepted as (part of) a stack when it is readable or writable, looked up by an
+    order-independent scan, and the returned window runs from the stack pointer's page to the end of that mapping"""
+    from rules import c06
+    _ensure(ctx, P + "/stack-plausible", lambda n: c06.rule_plausible_stack(ctx, R=n))
+    _ensure(ctx, P + "/stack-lookup", lambda n: c06.rule_find_mapping(ctx, R=n))
+    _ensure(ctx, P + "/stack-extent", lambda n: c06.rule_page_start(ctx, R=n))
